@@ -16,7 +16,7 @@ ENGINE = "E3-crash-and-fault-enumeration"
 TECHNIQUE = "exhaustive crash-point enumeration over the recorded file-system effect log of the real write path + exhaustive sidecar corruption"
 RULE = ("crash cases = (pre-state, completed first operation or none, crashing operation, crash point): pre-states = {no "
         "sidecar, {a:1}, three keys with a non-ASCII value, sidecar shared by two files differing by extension, neighbouring "
-        "sidecars of the version folder and a movie file}; operations = set(e,a=2), set(e,b=1), update(e,{a:2,b:2}), "
+        "sidecars of the version folder and a movie file}; operations = set(e,a=2), set(e,b=1), set(e,a=2,b=1), set(e,'a',2,c=3,d=4), update(e,{a:2,b:2}), "
         "create(e,{a:1}) on the file / its extension sibling / the version folder; crash points = every prefix of the "
         "recorded effect log, every append cut at every byte boundary. corruption cases = every pre-state sidecar x {cut at "
         "each byte 0..n-1, directory, PermissionError, EIO, invalid UTF-8}. distinct = distinct crash states / corruptions; "
@@ -33,7 +33,7 @@ PRE = {
     "neighbours": {"F1": {"a": 1}, "V1": {"v": 1}, "M1": {"m": 1}},
 }
 OPS = [["set", "F1", {"a": 2}], ["setkw", "F1", {"b": 1}], ["update", "F1", {"a": 2, "b": 2}], ["set", "F2", {"a": 3}], ["update", "V1", {"v": 2}],
-       ["create", "F3", {"a": 1}]]
+       ["create", "F3", {"a": 1}], ["setkw", "F1", {"a": 2, "b": 1}], ["setmix", "F1", {"a": 2, "c": 3, "d": 4}]]
 FIRSTS = [None, ["set", "F1", {"z": 0}]]
 
 
